@@ -117,6 +117,9 @@ def e2e_events(ctx, scenarios):
     return ev
 
 
+REPLAY_EXACT = True      # replay() re-executes exactly the stored case
+
+
 def run(ctx):
     ctx.assumptions += ['TLC/SANY', 'JSON marshalling', 'signature primitives of the cryptography package',
                         'Disabled / Invalid / NoSelfSignature cannot be produced end to end (self_verified is stubbed in PGPy); they are covered at function level only']
